@@ -1,6 +1,6 @@
 (* C04 -- RTU delivers only CRC-valid frames and emits only CRC-correct frames. *)
 From Coq Require Import Lia.
-From TM Require Import Base Frame Pdu Crc RtuCodec Framed FramedProofs RtuProofs.
+From TM Require Import Base Frame Pdu Crc RtuCodec Framed FramedProofs RtuProofs CrcProofs.
 
 (* one call of the resynchronising decoder: the buffer is split into the bytes dropped by this call,
    then (if a frame is handed up) exactly slave :: pdu ++ CRC-16/MODBUS(slave :: pdu) low byte first,
@@ -29,6 +29,27 @@ Proof. exact check_crc_false. Qed.
 (* every emitted frame is slave :: pdu ++ crc2 (slave :: pdu) and the decoder accepts it *)
 Theorem C04_emitted_frame_accepted : forall s p x, frame_decode (rtu_frame s p ++ x) (len p) = (x, FSome s p).
 Proof. exact frame_decode_frame. Qed.
+
+(* ---- why "a frame damaged in transit is never delivered as data": algebra of the CRC register ---- *)
+(* GF(2)-linearity of the register, for data of any length *)
+Theorem C04_crc_linear : forall d1 d2 a b, length d1 = length d2 ->
+  crc_fold (N.lxor a b) (xor_bytes d1 d2) = N.lxor (crc_fold a d1) (crc_fold b d2).
+Proof. exact crc_fold_xor. Qed.
+(* a slice passes the check iff the register run over the WHOLE slice (CRC bytes included) ends at 0 *)
+Theorem C04_residue : forall adu c1 c2, bytes_ok adu = true -> c1 < 256 -> c2 < 256 ->
+  (check_crc adu c1 c2 = true <-> crc_fold 0xFFFF (adu ++ [c1; c2]) = 0).
+Proof. exact check_crc_iff_residue. Qed.
+(* every error pattern whose set bits lie within 16 consecutive transmitted bits (pattern p shifted to
+   bit s of byte k), anywhere in a valid frame of ANY length, makes the residue non-zero: the corrupted
+   slice fails the CRC check; single-bit errors are the case p = 1 *)
+Theorem C04_detects_bursts : forall F k p s m,
+  crc_fold 0xFFFF F = 0 -> 1 <= p -> p < 65536 -> s < 8 -> length F = (k + 3 + m)%nat ->
+  crc_fold 0xFFFF (xor_bytes F (repeat 0 k ++ burst_bytes p s ++ repeat 0 m)) <> 0.
+Proof. exact burst_detected. Qed.
+Theorem C04_detects_single_bit : forall F k b m,
+  crc_fold 0xFFFF F = 0 -> b < 8 -> length F = (k + 3 + m)%nat ->
+  crc_fold 0xFFFF (xor_bytes F (repeat 0 k ++ burst_bytes 1 b ++ repeat 0 m)) <> 0.
+Proof. exact single_bit_detected. Qed.
 
 (* known-answer vectors of CRC-16/MODBUS (Modbus over serial line V1.02 and the suite's vectors) *)
 Example C04_kat1 : crc2 [0x01; 0x03; 0x00; 0x00; 0x00; 0x01] = [0x84; 0x0A].
